@@ -88,3 +88,18 @@ package scparser
 //@ loop 0 invariant[ctx] ctx != nil && same(ctx.prog, script) && 0 <= ctx.nextip && ctx.nextip <= l && l == len(script) && len(instrs) == 1 + (l-1)/64 && len(jumps) == 1 + (l-1)/64
 //@ loop 0 invariant[ahead] forall(p, ctx.nextip, 64 * len(instrs), !bitfield.bit(instrs, p))
 //@ loop 0 invariant[recorded] forall(p, 0, ctx.nextip, bitfield.bit(instrs, p) && jmpLen(opcode.Opcode(script[p])) > 0 ==> 0 <= p + rel(script, p) && p + rel(script, p) <= l && (p + rel(script, p) == l || bitfield.bit(jumps, p + rel(script, p))))
+
+// The two standard verification script forms, as the fee calculator sees them (pure functions of
+// the script bytes; the parsers themselves are not under contract).
+//@ prop C07
+//@ spec sigScript(b seq) bool
+//@ spec multiScript(b seq) bool
+//@ spec multiM(b seq) int
+//@ func IsSignatureContract
+//@ assumed
+//@ pure
+//@ ensures result == sigScript(script)
+//@ func ParseMultiSigContract
+//@ assumed
+//@ pure
+//@ ensures result2 == multiScript(script) && result0 == multiM(script) && 0 <= result0 && result0 <= 1024
